@@ -824,6 +824,8 @@ def gen28(rng, d, tier):
     cases = []
     I = iname(d)
     ncases = 5 if tier == "quick" else 14
+    if not d["props"]:
+        ncases = 1                  # nothing to read or write: one history of lookups that must all fail
     for ci in range(ncases):
         layout = rng.choice(["L/zv/a=D", "L/zv/a=D,/zv/a/b=D,/zv/c=O"])
         dp, op_, inter, unk = layout_paths(layout)
